@@ -489,38 +489,53 @@ func (v Value) opMod(b Value) Value {
 		return Value{t: untypedInt, num: float64(int(v.num) % int(b.num))}
 	}
 }
+
+// shiftOperands gives the result type and the count of a shift: the result
+// has the type of the left operand whatever the type of the count, and the
+// count is unsigned (a negative count is a run-time panic in Go).
+func shiftOperands(v, b Value) (Type, uint) {
+	if b.num < 0 {
+		panic("negative shift amount")
+	}
+	t := v.t
+	if t&isNumericMask == 0 {
+		t = mixType(v.t, b.t)
+	}
+	return t, uint(b.num)
+}
+
 func (v Value) opBitLsh(b Value) Value {
-	t := mixType(v.t, b.t)
+	t, n := shiftOperands(v, b)
 	switch t {
 	case TypeFloat64:
-		return Value{t: t, num: float64(int(v.num) << int(b.num))}
+		return Value{t: t, num: float64(int(v.num) << n)}
 	case TypeInt32:
-		return Value{t: t, num: float64(int32(v.num) << int32(b.num))}
+		return Value{t: t, num: float64(int32(v.num) << n)}
 	case TypeUint32:
-		return Value{t: t, num: float64(uint32(v.num) << uint32(b.num))}
+		return Value{t: t, num: float64(uint32(v.num) << n)}
 	case TypeInt8:
-		return Value{t: t, num: float64(int8(v.num) << int8(b.num))}
+		return Value{t: t, num: float64(int8(v.num) << n)}
 	case TypeUint8:
-		return Value{t: t, num: float64(byte(v.num) << byte(b.num))}
+		return Value{t: t, num: float64(byte(v.num) << n)}
 	default:
-		return Value{t: untypedInt, num: float64(int(v.num) << int(b.num))}
+		return Value{t: untypedInt, num: float64(int(v.num) << n)}
 	}
 }
 func (v Value) opBitRsh(b Value) Value {
-	t := mixType(v.t, b.t)
+	t, n := shiftOperands(v, b)
 	switch t {
 	case TypeFloat64:
-		return Value{t: t, num: float64(int(v.num) >> int(b.num))}
+		return Value{t: t, num: float64(int(v.num) >> n)}
 	case TypeInt32:
-		return Value{t: t, num: float64(int32(v.num) >> int32(b.num))}
+		return Value{t: t, num: float64(int32(v.num) >> n)}
 	case TypeUint32:
-		return Value{t: t, num: float64(uint32(v.num) >> uint32(b.num))}
+		return Value{t: t, num: float64(uint32(v.num) >> n)}
 	case TypeInt8:
-		return Value{t: t, num: float64(int8(v.num) >> int8(b.num))}
+		return Value{t: t, num: float64(int8(v.num) >> n)}
 	case TypeUint8:
-		return Value{t: t, num: float64(byte(v.num) >> byte(b.num))}
+		return Value{t: t, num: float64(byte(v.num) >> n)}
 	default:
-		return Value{t: untypedInt, num: float64(int(v.num) >> int(b.num))}
+		return Value{t: untypedInt, num: float64(int(v.num) >> n)}
 	}
 }
 func (v Value) opBitAnd(b Value) Value {
